@@ -295,6 +295,35 @@ def check(cfg, lines):
                     v("C17", "machine %d (one worker): processing states charged %s / %s, its items were in processing for %s" % (n, onep, allp, proc_t))
                 if abs(allb - blk_t) > 1e-6 or abs(oneb - blk_t) > 1e-6:
                     v("C17", "machine %d (one worker): blocked states charged %s / %s, finished items waited for room for %s" % (n, allb, oneb, blk_t))
+            if ncfg[n]["wcap"] > 1:
+                # several workers: every pulled item is in processing for one delay from its pull (delays are drawn
+                # in pull order), then -- in a blocking machine -- waits for room until it is pushed; the five
+                # activity states are charged by how many workers are processing (p) and blocked (b)
+                dl = ncfg[n]["delays"]
+                ivs = []
+                for k_, (tp_, i_, e_) in enumerate(pull_log[n]):
+                    d_ = dl[k_ % len(dl)]
+                    ready_ = min(tp_ + d_, T)
+                    if ncfg[n]["blocking"]:
+                        outs_ = [tq for (tq, e2) in t_put[i_] if src_of_edge[e2] == n]
+                        end_ = max(ready_, min(outs_[0] if outs_ else T, T))
+                    else:
+                        end_ = ready_
+                    ivs.append((min(tp_, T), ready_, end_))
+                pts = sorted(set([0.0, float(T)] + [x for iv in ivs for x in iv]))
+                tot = dict(onep=0.0, allp=0.0, allb=0.0, oneb=0.0)
+                for a_, b_ in zip(pts, pts[1:]):
+                    p_ = sum(1 for (x, y, z) in ivs if x <= a_ < y)
+                    q_ = sum(1 for (x, y, z) in ivs if y <= a_ < z)
+                    if p_ > 0: tot["onep"] += b_ - a_
+                    if p_ > 0 and q_ == 0: tot["allp"] += b_ - a_
+                    if q_ > 0 and p_ == 0: tot["allb"] += b_ - a_
+                    if q_ > 0: tot["oneb"] += b_ - a_
+                for name, got in (("onep", onep), ("allp", allp), ("allb", allb), ("oneb", oneb)):
+                    if abs(got - tot[name]) > 1e-6:
+                        v("C17", "machine %d (%d workers): activity states charged %s, the pull / ready / push times of its items give %s" %
+                          (n, ncfg[n]["wcap"], dict(onep=onep, allp=allp, allb=allb, oneb=oneb), tot))
+                        break
             occ = nums(nd["occ"])
             if abs(sum(occ) - T) > 1e-6:
                 v("C17", "machine %d: worker-occupancy histogram adds up to %s, elapsed %s" % (n, sum(occ), T))
